@@ -43,8 +43,8 @@ theorem C13 (prev : AReq) (nm : Method) (uri : Uri) (sameHost : Bool) (h : Hdr)
     · exact (keepAuthHeader_iff _ _ _).mp hk
     · simp [hk] at hf
 
-/-- the suppression list never exceeds its three slots -/
-theorem C13_cap (b : Bool) : (unsetList b).length ≤ 3 := by cases b <;> simp [unsetList]
+/-- the suppression list never exceeds its four slots (authorization, host, cookie, content-length) -/
+theorem C13_cap (b c : Bool) : (unsetList b c).length ≤ 4 := by cases b <;> cases c <;> simp [unsetList]
 
 /-- every flow returned by `as_new_flow` is such a `followFlow` of the request that was just made -/
 theorem C13_asNewFlow (f : Flow) (sameHost : Bool) (nf : Flow) (h : (f.asNewFlow sameHost).2 = .flow nf) :
